@@ -22,6 +22,7 @@ namespace cdsverif {
         uint32_t fairness = 1000;     // fairness valve: max consecutive points while others are enabled
         uint64_t budget = 400000;     // step budget per case
         bool real_threads = false;    // create (and let exit) a real pthread per worker instead of using the pool
+        bool scan_atomic = true;      // the hazard-collection stage of an HP/DHP scan is one scheduler step (see scan_collect_begin)
     };
 
     struct SchedStats {
@@ -52,6 +53,15 @@ namespace cdsverif {
     int  self_id() noexcept;           // registered id of the caller, -1 if none
     uint64_t tick() noexcept;          // strictly increasing logical clock for history events
     uint64_t points_now() noexcept;
+
+    // Called by the guarded hooks in /repo/src/hp.cpp and dhp.cpp around the loop of scan() that
+    // reads the hazard pointers of all threads. With SchedParams::scan_atomic the loop runs
+    // without pre-emption: a legal (sub)set of schedules that excludes, by construction, the
+    // known libcds defect "a hazard moved between two slots is missed by a concurrent scan"
+    // (known_findings.json: hazard-copy-*). The SMR harness keeps the loop pre-emptible.
+    void scan_collect_begin() noexcept;
+    void scan_collect_end() noexcept;
+    uint64_t scan_collect_count() noexcept;     // collections executed atomically in this session
 
     // scheduling suppressed while alive (used inside simulated signal handlers and oracles)
     struct no_sched {
